@@ -93,11 +93,27 @@ Definition chk_step_C13 (c : rcase) (hs : list hinfo) (prev : robs) (o : rop) (o
       | _, _ => views_eqb (ro_views prev) (ro_views ob)
       end
       && names_eqb (ro_names prev) (ro_names ob) && dirs_eqb (ro_dirs prev) (ro_dirs ob)
+  | RCloseOpen h mem url name mode =>
+      (* the closed handle is disabled; a handle the racing open returns works; handles of other names are not disturbed *)
+      (if (N.to_nat h <? List.length hs)%nat
+       then match nth_error (ro_views ob) (N.to_nat h) with Some VClosed => true | Some _ => false | None => true end
+       else true)
+      && (if is_opened (ro_resp ob) then
+            match ro_resp ob with RROpened h' => N.to_nat h' =? List.length hs | _ => false end%nat
+            && match nth_error (ro_views ob) (List.length hs) with Some (VData _) => true | _ => false end
+            && in_names name (ro_names ob)
+            && (mem || dir_exists c ob url)
+          else true)
+      && match nth_error hs (N.to_nat h) with
+         | Some hi => views_same_except (fun _ hj => String.eqb (hi_name hj) (hi_name hi)) 0 hs (ro_views prev) (firstn (List.length hs) (ro_views ob))
+         | None => true
+         end
   end.
 
 Definition hs_after (hs : list hinfo) (o : rop) (ob : robs) : list hinfo :=
   match o, ro_resp ob with
   | ROpen mem url name _, RROpened _ => hs ++ [mkHinfo mem url name]
+  | RCloseOpen _ mem url name _, RROpened _ => hs ++ [mkHinfo mem url name]
   | _, _ => hs
   end.
 
